@@ -28,6 +28,13 @@ def run(rep, facts, tier):
     GD.isqrt_hint(rep, cfg)
     GD.alloc_modes(rep, cfg, "C13")
     GD.lazy_typestate(rep, cfg)
+    GD.eager_decode(rep, cfg)
+    # completeness of the hint block: for each (flag, den == 0) row an HONEST prover can be in, the enforced equation and the case check must
+    # admit the native answer.  These are the rows of C14's guard table except the dishonest one (flag = true with den = 0), which is a soundness row.
+    from . import c14
+    from .common import import_rules
+    ng = import_rules(rep, c14, facts, tier, "HONEST", pred=lambda k: k.startswith("GUARD/") and "row(ws=1,dz=1)" not in k)
+    rep.floor("guard_rows_honest", ng, 5)
     # the outer (lazy) ElementVar forwards
     for nm in ("encode_to_curve",):
         ps = [x for x in cfg.prog.bodies if x.endswith("element::ElementVar::" + nm)]
